@@ -282,6 +282,27 @@ func (t *Table) parseStartKey(schema keySchema, startkeyAttr map[string]*types.I
 	return startKey, true
 }
 
+// ValidateStartKey rejects an exclusive start key that lacks a key attribute of the table or supplies a key
+// attribute, of the table or of the index that is read, with the wrong type
+func (t *Table) ValidateStartKey(indexName string, startKey map[string]*types.Item) error {
+	if len(startKey) == 0 {
+		return nil
+	}
+
+	schemas := []keySchema{t.KeySchema}
+	if i, ok := t.Indexes[indexName]; ok {
+		schemas = append(schemas, i.keySchema)
+	}
+
+	for _, ks := range schemas {
+		if _, err := ks.GetKey(t.AttributesDef, startKey); err != nil {
+			return types.NewError("ValidationException", "The provided starting key is invalid: "+err.Error(), nil)
+		}
+	}
+
+	return nil
+}
+
 func getPrimaryKey(index *index, k string) (string, bool) {
 	pk, ok := k, true
 
